@@ -52,6 +52,10 @@ def parseHStep (t : String) : Option (Option HStep) :=
 def hLoop : HState → List String → List String
   | _, [] => []
   | s, t :: rest =>
+    if t == "wals" then
+      -- pseudo step: the WAL files the model expects on disk while nobody has the directory open
+      ("w:" ++ gensStr s.leftover ++ "|" ++ handlesStr s.handles) :: hLoop s rest
+    else
     match parseHStep t with
     | none => ["bad-op"]
     | some none =>
@@ -69,7 +73,8 @@ def hLoop : HState → List String → List String
       (out ++ "|" ++ handlesStr s'.handles) :: hLoop s' rest
 
 /-- `handles.run steps=…`: the step grammar of `db.run` plus `opent:th:mx:rn:rd` (Open with the compaction
-goroutine enabled); after every step `<result as db.run>|<open handles>` -/
+goroutine enabled) and the pseudo steps `tables` (live table numbers) and `wals` (WAL files left on disk,
+meaningful between `close` and the next open); after every step `<result as db.run>|<open handles>` -/
 def handlesRun (a : Args) : String :=
   String.intercalate " " (hLoop {} (splitList (a.getD "steps" "")))
 
